@@ -16,6 +16,8 @@ import (
 	"encoding/base64"
 	"encoding/hex"
 	"errors"
+	"fmt"
+	"hash/fnv"
 	"io"
 	"strconv"
 	"strings"
@@ -242,7 +244,138 @@ var implMu sync.RWMutex
 
 // histBufs: the caller-owned buffers of a history case (header `hist`): argument i of every
 // call of the case lives in the SAME backing array, overwritten in place between the calls.
-type histBufs struct{ arr [8][]byte }
+type histBufs struct {
+	arr [8][]byte
+	// arena mode: all arguments of a call are windows of this one array, the rest is canaries
+	arena []byte
+	snap  []byte
+	used  int
+	wins  []arenaWin
+	rnd   *core.Rand
+	// results ledger: every []byte a call returned, with an independent deep copy
+	ledger []ledgerEntry
+}
+
+type arenaWin struct{ role, off, n int }
+
+type ledgerEntry struct {
+	got  []byte
+	copy []byte
+	from string
+}
+
+var roleNames = []string{"secret", "additional data", "plaintext/message", "salt", "?", "?", "?", "other"}
+
+func lineSeed(l string, i int) uint64 {
+	h := fnv.New64a()
+	h.Write([]byte(l))
+	_ = i // the placement depends on the text of the line only, so that a shrunk case keeps it
+	return h.Sum64()
+}
+
+// begin prepares the arena for one call: canaries everywhere.
+func (h *histBufs) begin(seed uint64) {
+	if h == nil || h.arena == nil {
+		return
+	}
+	h.rnd = core.NewRand(seed)
+	h.used = []int{0, 0, 1, 16, 33}[h.rnd.Intn(5)]
+	h.wins = h.wins[:0]
+	for i := range h.arena {
+		h.arena[i] = byte(0xc1 + i%59)
+	}
+	copy(h.snap, h.arena)
+}
+
+// putAll places the arguments (given with their roles) of one call.  History mode: each into the
+// backing array of its role.  Arena mode: as windows of the one arena, in an order, with gaps
+// (0 = adjacent, 1 = "secret:plaintext") and with or without spare capacity behind the window,
+// all drawn from the seed of the line; live data of the OTHER arguments and canaries are what
+// lies in a window's spare capacity.
+func (h *histBufs) putAll(roles []int, ps []*[]byte) {
+	if h == nil {
+		return
+	}
+	if h.arena == nil {
+		for i, p := range ps {
+			*p = h.put(roles[i], *p)
+		}
+		return
+	}
+	idx := make([]int, len(ps))
+	for i := range idx {
+		idx[i] = i
+	}
+	for i := len(idx) - 1; i > 0; i-- {
+		j := h.rnd.Intn(i + 1)
+		idx[i], idx[j] = idx[j], idx[i]
+	}
+	gaps := []int{0, 0, 1, 1, 1, 3, 8, 16, 17, 64}
+	for _, k := range idx {
+		b := *ps[k]
+		off := h.used + gaps[h.rnd.Intn(len(gaps))]
+		if off+len(b)+64 > len(h.arena) {
+			continue // does not fit: stays where it is
+		}
+		copy(h.arena[off:], b)
+		copy(h.snap[off:], b)
+		h.wins = append(h.wins, arenaWin{roles[k], off, len(b)})
+		h.used = off + len(b)
+		if h.rnd.Chance(35) {
+			*ps[k] = h.arena[off : off+len(b) : off+len(b)]
+		} else {
+			*ps[k] = h.arena[off : off+len(b)] // spare capacity: whatever follows in the arena
+		}
+	}
+}
+
+// verify: after the call the arena must be what it was, except the window the API is documented
+// to overwrite (the message of SaltBySecret*Decrypt with reuseCipherText = true).
+func (h *histBufs) verify(t []string) string {
+	if h == nil || h.arena == nil {
+		return ""
+	}
+	allowed := -1
+	if (t[0] == "raw-dec-cbc" || t[0] == "raw-dec-gcm") && len(t) > 1 && t[1] == "1" {
+		allowed = 2
+	}
+	for i := range h.arena {
+		if h.arena[i] == h.snap[i] {
+			continue
+		}
+		where, role := "canary / spare capacity", -1
+		for _, w := range h.wins {
+			if i >= w.off && i < w.off+w.n {
+				where, role = roleNames[w.role], w.role
+			}
+		}
+		if role >= 0 && role == allowed {
+			continue
+		}
+		return fmt.Sprintf("input-modified arena offset=%d (%s) windows=%v", i, where, h.wins)
+	}
+	return ""
+}
+
+// keep records a returned slice; recheck compares every earlier result with its deep copy.
+func (h *histBufs) keep(b []byte, from string) {
+	if h == nil || len(b) == 0 {
+		return
+	}
+	h.ledger = append(h.ledger, ledgerEntry{b, append([]byte{}, b...), from})
+}
+
+func (h *histBufs) recheck() string {
+	if h == nil {
+		return ""
+	}
+	for _, e := range h.ledger {
+		if !bytes.Equal(e.got, e.copy) {
+			return "result-changed: the slice returned by an earlier call (" + e.from + ") changed afterwards"
+		}
+	}
+	return ""
+}
 
 func newHistBufs() *histBufs {
 	h := &histBufs{}
@@ -305,11 +438,15 @@ func impl(c core.Case) []string {
 	out := make([]string, 0, len(c.Lines))
 	hdr := core.Toks(c.Lines[0])
 	var hb *histBufs
-	if len(hdr) == 3 && hdr[2] == "hist" {
+	if len(hdr) == 3 && (hdr[2] == "hist" || hdr[2] == "arena") {
 		implMu.Lock()
 		defer implMu.Unlock()
 		core.Guard(func() string { warmUp(); return "" })
 		hb = newHistBufs()
+		if hdr[2] == "arena" {
+			hb.arena = make([]byte, 8192)
+			hb.snap = make([]byte, 8192)
+		}
 		out = append(out, "ok")
 	} else {
 		implMu.RLock()
@@ -320,13 +457,26 @@ func impl(c core.Case) []string {
 			out = append(out, "bad-op")
 		}
 	}
-	for _, l := range c.Lines[1:] {
+	for li, l := range c.Lines[1:] {
 		t := core.Toks(l)
 		if out[0] != "ok" {
 			out = append(out, "bad-op")
 			continue
 		}
-		out = append(out, core.Guard(func() string { return step(t, hb) }))
+		hb.begin(lineSeed(l, li))
+		out = append(out, core.Guard(func() string {
+			r := step(t, hb)
+			if r == "bad-op" {
+				return r
+			}
+			if v := hb.verify(t); v != "" {
+				return v
+			}
+			if v := hb.recheck(); v != "" {
+				return v
+			}
+			return r
+		}))
 	}
 	return out
 }
@@ -436,14 +586,27 @@ func step(t []string, hb *histBufs) string {
 		if len(t) != n {
 			return false
 		}
+		var roles []int
+		var ps []*[]byte
 		for i := from; i < n; i++ {
 			b, ok := unhx(t[i])
 			if !ok {
 				return false
 			}
-			a[i] = hb.put(roleOf(t[0], i), b)
+			a[i] = b
+			roles = append(roles, roleOf(t[0], i))
+			ps = append(ps, &a[i])
 		}
+		hb.putAll(roles, ps)
 		return true
+	}
+	// every returned slice goes into the results ledger — except the ones that are documented
+	// to alias the caller's buffer (reuseCipherText = true), which the harness itself reuses
+	res := func(b []byte, err error) string {
+		if err == nil && !((t[0] == "raw-dec-cbc" || t[0] == "raw-dec-gcm") && t[1] == "1") {
+			hb.keep(b, t[0])
+		}
+		return res(b, err)
 	}
 	switch t[0] {
 	case "enc-cbc", "raw-enc-cbc":
@@ -530,7 +693,7 @@ func step(t []string, hb *histBufs) string {
 		if !ok1 || !ok2 || !ok3 || !ok4 || len(salt) != 8 {
 			return "bad-op"
 		}
-		secret, pt = hb.put(0, secret), hb.put(2, pt)
+		hb.putAll([]int{0, 2}, []*[]byte{&secret, &pt})
 		var in io.Reader
 		if t[4] == "w" {
 			in = bytes.NewReader(pt)
@@ -559,7 +722,7 @@ func step(t []string, hb *histBufs) string {
 		if !ok2 || !ok3 || !ok4 {
 			return "bad-op"
 		}
-		secret, ct = hb.put(0, secret), hb.put(2, ct)
+		hb.putAll([]int{0, 2}, []*[]byte{&secret, &ct})
 		if t[3] == "b" {
 			var buf bytes.Buffer
 			if err := decStream(t[1], &buf, bytes.NewReader(ct), secret); err != nil {
